@@ -233,18 +233,20 @@ def validate_trace(specdir, module, cfg, trace_path, total_lines, timeout=1800, 
         shutil.copyfile(trace_path, dst)
     for src, name in (extra_files or []):
         shutil.copyfile(src, os.path.join(specdir, name))
-    res = run_tlc(specdir, module, cfg, workers=1, timeout=timeout, heap=heap, deadlock=False, dfs=dfs)
+    res = run_tlc(specdir, module, cfg, workers=1, timeout=timeout, heap=heap, deadlock=False, dfs=dfs, stack="1g")
     h = res.printed("HWM")
     hwm = int(h[-1]) if h else -1
     bad = [e for e in res.errors if "Postcondition" not in e and "postcondition" not in e.lower()]
     if hwm < 0 or (bad and hwm >= total_lines):
-        raise CheckError("trace validation run broke (module %s):\n%s" % (module, res.out[-6000:]))
+        i = max(0, res.out.find("Error:"))
+        raise CheckError("trace validation run broke (module %s):\n%s\n...\n%s" % (module, res.out[i:i + 1500], res.out[-800:]))
     # An evaluation error while explaining line hwm+1 is a rejection of that line
     # only if it is a postcondition/invariant failure; anything else is machinery.
     for e in bad:
         if "Invariant" in e or "Action property" in e:
             continue
-        raise CheckError("TLC error during trace validation (module %s):\n%s" % (module, res.out[-6000:]))
+        i = res.out.find("Error:")
+        raise CheckError("TLC error during trace validation (module %s):\n%s\n...\n%s" % (module, res.out[i:i + 1500], res.out[-800:]))
     return TraceVerdict(hwm >= total_lines and not bad, hwm, total_lines, res)
 
 
